@@ -514,3 +514,63 @@ Proof.
   assert (B : in_box fone p_025) by (split; [vm_compute; reflexivity|rewrite p_025_R, fone_R; lra]).
   split; (constructor; [assumption|constructor; [assumption|constructor]]).
 Qed.
+
+(** ** [separation_vector] is congruent to the exact difference of the two positions. *)
+Lemma Forall2_nth : forall {A B : Type} (R : A -> B -> Prop) (l : list A) (out : list B) (da : A) (db : B),
+  Forall2 R l out -> forall i, (i < length l)%nat -> R (nth i l da) (nth i out db).
+Proof.
+  intros A B R l out da db H. induction H; intros i Hi; simpl in Hi; [lia|].
+  destruct i; simpl; [assumption|]. apply IHForall2. lia.
+Qed.
+
+Lemma raw_separation_nth : forall dim ref tgt i, (i < dim)%nat ->
+  nth i (raw_separation dim ref tgt) fnan = fsub (nth i tgt fnan) (nth i ref fnan).
+Proof.
+  intros dim ref tgt i Hi. unfold raw_separation.
+  rewrite (nth_indep _ fnan (fsub (nth 0 tgt fnan) (nth 0 ref fnan)))
+    by (rewrite map_length, seq_length; exact Hi).
+  rewrite (map_nth (fun i => fsub (nth i tgt fnan) (nth i ref fnan)) (seq 0 dim) 0%nat i).
+  rewrite seq_nth by exact Hi. reflexivity.
+Qed.
+
+Lemma cubic_separation_vector_congruent : forall (dim : nat) (L : f64) (ref tgt out : list f64),
+  ffinite L = true -> 0 < B2R L -> B2R (half L) = B2R L / 2 -> B2R L <= bpow radix2 1022 ->
+  length ref = dim -> length tgt = dim -> Forall (in_box L) ref -> Forall (in_box L) tgt ->
+  cubic_separation_vector dim L ref tgt = Some out ->
+  forall i, (i < dim)%nat ->
+  let t := B2R (nth i tgt fnan) in let r := B2R (nth i ref fnan) in
+  exists k : Z,
+    Rabs (B2R (nth i out fnan) - (t - r - IZR k * B2R L)) <=
+      / 2 * ulp64 (t - r) + / 2 * ulp64 (RN (t - r) + B2R L / 2) + ulp64 (B2R L).
+Proof.
+  intros dim L ref tgt out FL PL HE HB Lr Lt Br Bt H i Hi t r.
+  generalize (raw_separation_in_box dim L ref tgt FL Lr Lt Br Bt). intros Fraw.
+  unfold cubic_separation_vector, cubic_correct_separation in H.
+  apply all_some_Forall2 in H.
+  assert (Li : (i < length (raw_separation dim ref tgt))%nat).
+  { unfold raw_separation. rewrite map_length, seq_length. exact Hi. }
+  generalize (Forall2_nth _ _ _ fnan fnan H i Li). rewrite raw_separation_nth by exact Hi.
+  intros E.
+  assert (Fs : ffinite (fsub (nth i tgt fnan) (nth i ref fnan)) = true /\
+               Rabs (B2R (fsub (nth i tgt fnan) (nth i ref fnan))) < B2R L).
+  { rewrite <- raw_separation_nth with (dim := dim) by exact Hi.
+    apply (proj1 (Forall_forall _ _) Fraw). apply nth_In. exact Li. }
+  destruct Fs as [Fs Bs].
+  assert (Ir : in_box L (nth i ref fnan)).
+  { apply (proj1 (Forall_forall _ _) Br). apply nth_In. lia. }
+  assert (It : in_box L (nth i tgt fnan)).
+  { apply (proj1 (Forall_forall _ _) Bt). apply nth_In. lia. }
+  destruct Ir as [Fr Rr], It as [Ft Rt].
+  assert (Vs : B2R (fsub (nth i tgt fnan) (nth i ref fnan)) = RN (t - r)).
+  { apply fsub_spec; try assumption. apply (RN_no_overflow_le L).
+    rewrite (Rabs_pos_eq (B2R L)) by lra. apply Rabs_le. lra. }
+  assert (NO : Rabs (B2R (fsub (nth i tgt fnan) (nth i ref fnan))) + B2R L <= bpow radix2 1023).
+  { change (bpow radix2 1023) with (bpow radix2 (1022 + 1)). rewrite bpow_plus.
+    change (bpow radix2 1) with 2. lra. }
+  destruct (sep_congruent _ L _ Fs FL PL HE NO E) as [k C].
+  exists k. rewrite Vs in C.
+  replace (B2R (nth i out fnan) - (t - r - IZR k * B2R L))
+    with ((B2R (nth i out fnan) - (RN (t - r) - IZR k * B2R L)) + (RN (t - r) - (t - r))) by ring.
+  apply Rle_trans with (1 := Rabs_triang _ _).
+  generalize (RN_err (t - r)). lra.
+Qed.
